@@ -11,7 +11,7 @@ import (
 
 func init() {
 	props["C15"] = &propCheck{
-		lean: []string{"JSight.Props.C15"},
+		lean: []string{"JSight.Props.C15", "JSight.Props.C15_Scan"},
 		exes: []string{"jsight-model"},
 		run:  runC15,
 		rule: "texts: all strings over {a,space,tab,LF,CR,(,),#} up to the length bound + all sequences of up to 4 (thorough: 5) pieces over {a,space,tab,LF,(,),VT, U+00A0 (C2 A0), U+2028 (E2 80 A8), U+3000 (E3 80 80), and the lone bytes C2, E2, A8, 80, 85 (invalid / truncated UTF-8)} + random longer multi-line texts over both alphabets; non-trivial = at least two lines or leading blanks; end-to-end: the same text bare and parenthesised on all four description hosts",
